@@ -976,13 +976,13 @@ func (c *Ctx) locatePos(file string, line, col int) (string, string, token.Pos) 
 				case *ast.IndexExpr:
 					lp := c.P.Fset.Position(x.Lbrack)
 					if lp.Line == line && (expr == "" || lp.Column == col || p.Column == col) {
-						expr = exprShape(x)
+						expr = exprShape(x, pk.TypesInfo)
 						lbr = x.Lbrack
 					}
 				case *ast.SliceExpr:
 					lp := c.P.Fset.Position(x.Lbrack)
 					if lp.Line == line && (expr == "" || lp.Column == col || p.Column == col) {
-						expr = exprShape(x)
+						expr = exprShape(x, pk.TypesInfo)
 						lbr = x.Lbrack
 					}
 				case *ast.FuncDecl, *ast.FuncLit:
@@ -1085,8 +1085,20 @@ func loopOfHeader(h *ssa.BasicBlock) map[*ssa.BasicBlock]bool {
 }
 
 // exprShape renders an expression with its free identifiers (not field selectors, not builtins) replaced by $1, $2, ...
-func exprShape(x ast.Expr) string {
+func exprShape(x ast.Expr, info *types.Info) string {
 	str := types.ExprString(x)
+	// a named constant stands for its value (Layers[transportLayerIdx] is Layers[1])
+	consts := map[string]string{}
+	if info != nil {
+		ast.Inspect(x, func(n ast.Node) bool {
+			if id, ok := n.(*ast.Ident); ok {
+				if cst, ok := info.Uses[id].(*types.Const); ok && cst.Val() != nil && cst.Pkg() != nil {
+					consts[id.Name] = cst.Val().ExactString()
+				}
+			}
+			return true
+		})
+	}
 	sel := map[*ast.Ident]bool{}
 	ast.Inspect(x, func(n ast.Node) bool {
 		if se, ok := n.(*ast.SelectorExpr); ok {
@@ -1103,9 +1115,15 @@ func exprShape(x ast.Expr) string {
 		}
 		return true
 	})
-	for i, n := range names {
+	k := 0
+	for _, n := range names {
 		re := regexp.MustCompile(`(^|[^.\w$])` + regexp.QuoteMeta(n) + `\b`)
-		str = re.ReplaceAllString(str, "${1}$$"+strconv.Itoa(i+1))
+		if v, ok := consts[n]; ok {
+			str = re.ReplaceAllString(str, "${1}"+v)
+			continue
+		}
+		k++
+		str = re.ReplaceAllString(str, "${1}$$"+strconv.Itoa(k))
 	}
 	return str
 }
